@@ -11,6 +11,8 @@ def check(ctx, replay=None):
         dict(scope="actions", mc=["ValidOK"], mc_maxskips=[255], kw=dict(NSys=3), stride=1, concs=4, expand=1),
         dict(scope="rich", mc=["ValidOK"], mc_maxskips=[255, 3] if th else [3], stride=1 if th else 4, concs=2, expand=1),
         dict(scope="many", mc=["ValidOK"], mc_maxskips=[255, 2] if th else [2], stride=1 if th else 10, concs=2, expand=1),
+        # policies the validation is meant to stop (argument index 6/7/max, ...): whatever comes back without error must be valid
+        dict(scope="defects", mc=["ValidOK"], mc_maxskips=[255], kw=dict(NSys=3), stride=1, concs=2, expand=1),
         dict(scope="long1", mc=["ValidOK"] if th else None, mc_maxskips=[255], kw=dict(W=8, X32Bit=512, NSys=300), stride=1 if th else 2, concs=2, expand=1),
         dict(scope="long2", mc=["ValidOK"] if th else None, mc_maxskips=[255], kw=dict(W=8, X32Bit=512, NSys=300), stride=1 if th else 3, concs=2, expand=1),
         dict(scope="longconds", mc=["ValidOK"], mc_maxskips=[255], kw=dict(W=8, X32Bit=512, NSys=300), stride=1 if th else 2, concs=2, expand=1),
